@@ -808,7 +808,9 @@ def getHeaders (r : Repo) (start : Int) (max : Nat) : Except ReadErr (List Hdr) 
           match getI recs (h - file * hpf) with
           | none => .ok acc.reverse
           | some d => go k (h + 1) (d.hdr :: acc)
-  go max start []
+  -- `if len(result) == maxCount { break }` is tested after each append: with maxCount = 0 it never fires and the
+  -- loop runs to the tip
+  go (if max = 0 then ((r.br r.longest).height - start + 1).toNat else max) start []
 
 def tipHeight (r : Repo) : Int := (r.br r.longest).height
 def tipId (r : Repo) : Nat := ((r.lastOf r.longest).map (·.hdr.id)).getD 0
